@@ -115,12 +115,42 @@ func ruleC19Structure(c *core.Ctx) {
 				}
 				return true
 			})
-			if lit == nil {
-				core.Undecided("policy closure shouldExit not found")
+			var g *core.Graph
+			var errObj types.Object
+			if lit != nil {
+				o.At(fn.Site(lit, "policy closure"))
+				g = fn.LitGraph(lit)
+				errObj = info.ObjectOf(lit.Type.Params.List[0].Names[0])
+			} else {
+				// the policy as a function or method of its own, called from here
+				raw := c.Prog.RawFunc("pdf", name)
+				for _, cs := range core.CallsIn(raw.Info(), raw.Decl.Body, true) {
+					if cs.Fn == nil || cs.Fn.Name() != "shouldExit" {
+						continue
+					}
+					pf := c.Prog.FuncOf(cs.Fn)
+					if pf == nil || pf.Decl.Type.Params == nil {
+						continue
+					}
+					for _, f := range pf.Decl.Type.Params.List {
+						for _, n := range f.Names {
+							if core.IsErrorType(pf.Info().ObjectOf(n).Type()) {
+								errObj = pf.Info().ObjectOf(n)
+							}
+						}
+					}
+					if errObj != nil {
+						fn = pf
+						info = pf.Info()
+						g = pf.Graph()
+						o.At(pf.Site(pf.Decl, "policy function"))
+						break
+					}
+				}
+				if g == nil {
+					core.Undecided("error-handling policy shouldExit not found (neither a closure nor a function of that name)")
+				}
 			}
-			o.At(fn.Site(lit, "policy closure"))
-			g := fn.LitGraph(lit)
-			errObj := info.ObjectOf(lit.Type.Params.List[0].Names[0])
 			for _, r := range g.Returns() {
 				rs := r.AST.(*ast.ReturnStmt)
 				cv := core.ConstOf(info, rs.Results[0])
@@ -161,6 +191,14 @@ func ruleC19Structure(c *core.Ctx) {
 			n++
 			o.At(fn.Site(cv.Call, cv.Key))
 			_, isAssign := cv.V.AST.(*ast.AssignStmt)
+			if rs, isRet := cv.V.AST.(*ast.ReturnStmt); isRet {
+				// returned directly
+				for _, r := range rs.Results {
+					if ast.Unparen(r) == ast.Expr(cv.Call) {
+						isAssign = true
+					}
+				}
+			}
 			o.Require(isAssign, "the result of %s is not kept", cv.Key)
 		}
 		o.Require(n >= 2, "expected the final Flush and the sink's Close in Writer.Close")
